@@ -135,8 +135,72 @@ def _labelled_expr(ctx: Ctx, fn: FunctionInfo, e: ast.AST, seen: set, depth: int
     return True, ""
 
 
+def reused_material_rule(ctx: Ctx) -> None:
+    """Crossover reuses a labelled subtree of the donor as (part of) the offspring.  mutate is interpreted (sa/treemodel.py) with donor
+    material present and the donor's subtree carrying its labels (gengy_labeled, counts, a type index that lists the subtree itself).
+    What comes back is either that very object - its labels describe it - or a new object; a new object that still says it is
+    labelled keeps the donor's index (whose entries are the donor's objects): relabel_nodes returns early on it, so the offspring's
+    index never lists the offspring's own root."""
+    from ..modelinterp import Budget, Effect, Obj, Sym, UNKNOWN, TypeV
+    from ..treemodel import TreeModel
+    mu = ctx.prog.functions.get("geneticengine.representations.tree.treebased:mutate")
+    if mu is None or "source_material" not in mu.params:
+        raise AnalysisError("anchor function missing: tree mutate(..., source_material)")
+    NODE = TypeV("class", "N")
+    donor = Sym("donor-subtree")
+
+    def extra_choose(it, call, env, args, kwargs):
+        opts = args[0] if args else None
+        return opts[0] if isinstance(opts, list) and opts else Sym("chosen")
+
+    model = TreeModel(ctx, fields={NODE: [("f1", TypeV("class", "T1"))]}, ints={"mutate:random_int": 0},
+                      hasattrs={"node": {}, "__typeof__": {"node": NODE}},
+                      extra_calls={"find_in_tree": lambda it, call, env, args, kwargs: [donor], "choose_options": extra_choose,
+                                   "has_annotated_mutation": lambda *a, **k: False})
+    it = model.interp()
+    for a_, v_ in (("gengy_labeled", True), ("gengy_nodes", 1), ("gengy_distance_to_term", 1), ("gengy_weighted_nodes", 1),
+                   ("gengy_types_this_way", {NODE: [donor]}), ("gengy_init_values", [Sym("leaf")])):
+        it.heap[(donor.tag, a_)] = v_
+    p = mu.params
+    env = {p[0]: Obj("GlobalSynthesisContext", {"random": Sym("random"), "grammar": Sym("grammar"), "decider": Sym("decider")}),
+           p[1]: Sym("node"), p[2]: NODE, "source_material": [Sym("donor")],
+           f"{p[1]}.gengy_synthesis_context": Obj("LocalSynthesisContext", {"depth": 1, "nodes": 1, "expansions": 1, "dependent_values": {}}),
+           f"{p[1]}.gengy_weighted_nodes": 3, f"{p[1]}.gengy_init_values": [Sym("v1")]}
+    if len(p) > 3 and p[3] != "source_material":
+        env[p[3]] = {}
+    construct = "crossover offspring built from a labelled donor subtree: the labels it carries describe the offspring's own nodes"
+    try:
+        runs = it.run(mu, env)
+    except Budget:
+        ctx.ob("C11.R8", mu, mu.node, construct, None, "too many interpretations")
+        return
+    verdict: Optional[bool] = True
+    why = ""
+    for trace, rv, notes in runs:
+        if any(e.kind == "raise" for e in trace):
+            continue
+        if rv == donor:
+            continue            # the donor's own object: its labels are its own
+        if not isinstance(rv, (Sym, Obj)):
+            verdict, why = (None, f"the offspring is not followed ({rv!r})") if verdict is True else (verdict, why)
+            continue
+        get = (lambda a_: rv.fields.get(a_)) if isinstance(rv, Obj) else (lambda a_: it.heap.get((rv.tag, a_)))
+        if get("gengy_labeled") is True:
+            idx = get("gengy_types_this_way")
+            first = idx.get(NODE, [None])[0] if isinstance(idx, dict) and idx.get(NODE) else None
+            if first is not rv and first != rv:
+                verdict = False
+                why = (f"the offspring's root is a new object ({rv!r}) that still carries gengy_labeled = True and the donor's type index, whose entry for its own "
+                       f"type is {first!r}: relabel_nodes returns early on it, so the offspring's index lists the donor's node instead of the offspring's root "
+                       f"(stale labels on reused material)")
+                break
+    ctx.ob("C11.R8", mu, mu.node, construct, verdict, why)
+
+
 def run(ctx: Ctx) -> None:
     prog, res = ctx.prog, ctx.res
+    ctx.rule("C11.R8", "subtrees reused by crossover carry labels that describe the offspring (a copied root does not keep the donor's 'labelled' flag and index)")
+    reused_material_rule(ctx)
     from .grammodel import analysis_rule
     ctx.rule("C11.R6", "the abstract-expansion table that expansion-depthing metadata adds is the shortest chain of abstract expansions "
                        "(grammar analysis interpreted end to end on the model grammars)")
